@@ -19,9 +19,12 @@ Definition v2hdr_ok (h : v2hdr) : Prop :=
   h_hi h < two64 /\ h_lo h < two64 /\ 51 <= h_doff h < two63 /\ 0 < h_dsize h < two63 /\
   h_ioff h < two63.
 
-Lemma read_v2hdr_enc h rest : v2hdr_ok h -> read_v2hdr (enc_v2hdr h ++ rest) = Ok (h, rest).
+(* Header.ReadFrom on an encoded header: accepted exactly when [v2hdr_accepted] *)
+Lemma read_v2hdr_enc_exact h rest :
+  h_hi h < two64 -> h_lo h < two64 -> h_doff h < two64 -> h_dsize h < two64 -> h_ioff h < two64 ->
+  read_v2hdr (enc_v2hdr h ++ rest) = if v2hdr_accepted h then Ok (h, rest) else Err EOther.
 Proof.
-  intros (Hhi & Hlo & Hdo & Hds & Hio). destruct h as [hi lo doff dsize ioff]. cbn [h_hi h_lo h_doff h_dsize h_ioff] in *.
+  intros Hhi Hlo Hdo Hds Hio. destruct h as [hi lo doff dsize ioff]. cbn [h_hi h_lo h_doff h_dsize h_ioff] in *.
   unfold read_v2hdr.
   assert (Hl : blen (enc_v2hdr (mkv2 hi lo doff dsize ioff) ++ rest) = 40 + blen rest)
     by (rewrite blen_app, blen_enc_v2hdr; reflexivity).
@@ -47,24 +50,33 @@ Proof.
   rewrite !take8_app by assumption.
   unfold a1, a2, a3, a4, a5.
   assert (P : 256 ^ N.of_nat 8 = two64) by reflexivity.
-  rewrite !le_dec_enc by (rewrite P; unfold two63, two64 in *; lia).
-  unfold as_int64.
-  replace (doff <? two63) with true by lia. replace (dsize <? two63) with true by lia.
-  replace (ioff <? two63) with true by lia.
-  replace (Z.of_N doff <? 51)%Z with false by lia.
-  replace (Z.of_N dsize <=? 0)%Z with false by lia.
-  replace (Z.of_N ioff <? 0)%Z with false by lia.
-  reflexivity.
+  rewrite !le_dec_enc by (rewrite P; assumption).
+  unfold as_int64, v2hdr_accepted. cbn [h_doff h_dsize h_ioff].
+  destruct (doff <? two63) eqn:E1; destruct (dsize <? two63) eqn:E2; destruct (ioff <? two63) eqn:E3;
+    destruct (51 <=? doff) eqn:E4; destruct (0 <? dsize) eqn:E5; cbn [andb];
+    repeat match goal with |- context [if ?c then _ else _] => let E := fresh "E" in destruct c eqn:E end;
+    try reflexivity; exfalso; unfold two63, two64 in *; lia.
+Qed.
+
+Lemma read_v2hdr_enc h rest : v2hdr_ok h -> read_v2hdr (enc_v2hdr h ++ rest) = Ok (h, rest).
+Proof.
+  intros (Hhi & Hlo & Hdo & Hds & Hio).
+  rewrite read_v2hdr_enc_exact by (try assumption; unfold two63, two64 in *; lia).
+  unfold v2hdr_accepted.
+  replace (51 <=? h_doff h) with true by lia. replace (h_doff h <? two63) with true by lia.
+  replace (0 <? h_dsize h) with true by lia. replace (h_dsize h <? two63) with true by lia.
+  replace (h_ioff h <? two63) with true by lia. reflexivity.
 Qed.
 
 Lemma pragma_is_ld : pragma = ld pragma_body.
 Proof. reflexivity. Qed.
 
 (* ---- blocks LoadIndex accepts ---------------------------------------------------------------- *)
-(* a section LoadIndex walks over: a well-formed CID (digest within go-cid's allocation cap),
-   section length representable, and - if the CID is to be indexed - within MaxIndexCidSize *)
+(* a section LoadIndex walks over: a well-formed CID whose digest fits an index bucket (32 MiB - 8,
+   below go-cid's 32 MiB allocation cap; the same condition as C03's), section length representable,
+   and - if the CID is to be indexed - within MaxIndexCidSize *)
 Definition lblock_ok (o : xopts) (b : block) : Prop :=
-  exists p, cid_ok p /\ fst b = cid_enc p /\ blen (c_digest p) <= max_digest_alloc /\
+  exists p, cid_ok p /\ fst b = cid_enc p /\ blen (c_digest p) + 8 <= max_width /\
             blen (fst b) + blen (snd b) < two63 /\
             (x_storeid o || negb (is_identity p) = true -> blen (fst b) <= x_maxcid o).
 
@@ -82,29 +94,46 @@ Lemma blen_enc_sections_cons c d t :
 Proof.
   unfold enc_sections. cbn [map concat fst snd]. rewrite blen_app, blen_enc_section. reflexivity.
 Qed.
+Lemma enc_sections_cons c d t : enc_sections ((c, d) :: t) = enc_section c d ++ enc_sections t.
+Proof. reflexivity. Qed.
+Lemma section_size_pos c d : 1 <= section_size c d.
+Proof. unfold section_size, ld_size. pose proof (uv_size_pos (blen c + blen d)). lia. Qed.
+
+Lemma let_pair_fst_snd {A B : Type} (p : A * B) (P : A -> B -> Prop) :
+  (let '(x, y) := p in P x y) -> P (fst p) (snd p).
+Proof. destruct p. auto. Qed.
 
 Section Wrap.
   Variable hdrdec : bytes -> option (list bytes * N).
 
-  (* the section loop on a constructed CARv1: all = pre ++ sections, reader positioned at |pre| *)
-  Lemma li_loop_sections o all : blen all <= x_maxseek o -> blen all < two63 ->
-    forall bs pre acc fuel,
-      all = pre ++ enc_sections bs -> Forall (lblock_ok o) bs -> (length bs < fuel)%nat ->
-      li_loop fuel o all (blen pre) 0 0 acc
-      = Ok (rev acc ++ spec_records (x_storeid o) (blen pre) bs).
+  (* walking the sections of a constructed payload that sits anywhere in a file: all = pre ++
+     sections ++ post, reader at |pre|; [doff]/[dsize] = 0/0 (CARv1 source) or the CARv2 window,
+     which must not end before the sections do; every position up to the end of the sections is
+     seekable.  The loop arrives at the end of the sections with one record per indexed section. *)
+  Lemma li_loop_through o all : blen all < two63 ->
+    forall bs pre post acc f doff dsize,
+      all = pre ++ enc_sections bs ++ post -> Forall (lblock_ok o) bs -> doff <= blen pre ->
+      (dsize = 0 \/ blen pre + blen (enc_sections bs) <= dsize + doff) ->
+      blen pre + blen (enc_sections bs) <= x_maxseek o ->
+      li_loop (length bs + f) o all (blen pre) doff dsize acc
+      = li_loop f o all (blen pre + blen (enc_sections bs)) doff dsize
+          (rev (spec_records (x_storeid o) (blen pre - doff) bs) ++ acc).
   Proof.
-    intros Hseek H63. induction bs as [|[c d] bs IH]; intros pre acc fuel Hall Hok Hfuel.
-    - destruct fuel; [cbn in Hfuel; lia|]. cbn [li_loop].
-      rewrite (view_at all pre [] ) by (rewrite Hall; reflexivity).
-      cbn. rewrite app_nil_r. reflexivity.
-    - destruct fuel; [cbn in Hfuel; lia|]. cbn [li_loop].
+    intros H63. induction bs as [|[c d] bs IH]; intros pre post acc f doff dsize Hall Hok Hdoff Hend Hseek.
+    - cbn [length Nat.add spec_records rev app]. change (enc_sections []) with (@nil byte).
+      rewrite blen_nil, N.add_0_r. reflexivity.
+    - cbn [length Nat.add li_loop].
       inversion Hok as [|? ? Hb Hok']; subst x l.
       destruct Hb as (p & Hp & Hc & Hdig & Hlen & Hcid). cbn [fst snd] in Hc, Hlen, Hcid.
+      rewrite blen_enc_sections_cons in Hend, Hseek. pose proof (section_size_pos c d) as Hsp.
+      assert (Htop : negb (dsize =? 0) && (dsize <=? blen pre - doff) = false).
+      { destruct Hend as [->|Hle]; [reflexivity|]. replace (dsize <=? blen pre - doff) with false by lia.
+        apply andb_false_r. }
+      rewrite Htop.
       set (slen := blen c + blen d) in *.
-      set (rest := enc_sections bs).
+      set (rest := enc_sections bs ++ post).
       assert (Hall2 : all = pre ++ put_uv slen ++ c ++ d ++ rest).
-      { rewrite Hall. unfold enc_sections. cbn [map concat fst snd]. unfold enc_section.
-        fold slen. rewrite <- !app_assoc. reflexivity. }
+      { rewrite Hall, enc_sections_cons. unfold enc_section, rest. fold slen. rewrite <- !app_assoc. reflexivity. }
       rewrite (view_at all pre _ Hall2).
       rewrite read_uv_put_uv by exact Hlen.
       assert (Hc2 : 2 <= blen c) by (rewrite Hc; apply cid_enc_nonempty; exact Hp).
@@ -112,7 +141,8 @@ Section Wrap.
       assert (Hv : drop (blen pre + uv_size slen) all = c ++ d ++ rest).
       { rewrite <- blen_put_uv, <- blen_app. apply view_at. rewrite Hall2, <- app_assoc. reflexivity. }
       rewrite Hv. rewrite Hc at 1.
-      rewrite cid_from_reader_enc by assumption. rewrite <- Hc.
+      rewrite cid_from_reader_enc by (try assumption; unfold max_width, max_digest_alloc in *; lia).
+      rewrite <- Hc.
       set (keep := x_storeid o || negb (is_identity p)) in *.
       assert (Hk : keep && (x_maxcid o <? blen c) = false).
       { destruct keep; [|reflexivity]. cbn [andb]. specialize (Hcid eq_refl). lia. }
@@ -120,17 +150,40 @@ Section Wrap.
       assert (Hnpos : blen pre + uv_size slen + slen = blen (pre ++ enc_section c d)).
       { rewrite blen_app, blen_enc_section. unfold section_size, ld_size. fold slen. lia. }
       assert (Hle : blen (pre ++ enc_section c d) <= blen all).
-      { rewrite Hall. unfold enc_sections. cbn [map concat fst snd]. rewrite !blen_app. lia. }
+      { rewrite Hall, enc_sections_cons, !blen_app. lia. }
       rewrite Hnpos.
       assert (Hs : seek_ok o (blen (pre ++ enc_section c d)) = true).
-      { unfold seek_ok. apply andb_true_iff. split; lia. }
-      rewrite Hs. cbn [negb N.eqb andb].
-      rewrite IH; [| |exact Hok'|cbn in Hfuel; lia].
-      + rewrite (spec_records_cons _ _ c d bs p Hp Hc). rewrite N.sub_0_r.
-        rewrite blen_app, blen_enc_section. fold keep.
-        destruct keep; cbn [rev app]; rewrite <- ?app_assoc; reflexivity.
-      + rewrite Hall. unfold enc_sections. cbn [map concat fst snd]. rewrite <- app_assoc. reflexivity.
+      { unfold seek_ok. rewrite blen_app, blen_enc_section. apply andb_true_iff.
+        rewrite blen_app, blen_enc_section in Hle. split; lia. }
+      rewrite Hs. cbn [negb].
+      rewrite (IH (pre ++ enc_section c d) post); [| |exact Hok'| | |].
+      + rewrite (spec_records_cons _ _ c d bs p Hp Hc). fold keep.
+        rewrite blen_app, blen_enc_section.
+        replace (blen pre + section_size c d - doff) with (blen pre - doff + section_size c d) by lia.
+        f_equal; [rewrite blen_enc_sections_cons; lia|].
+        destruct keep; cbn [app rev]; rewrite ?rev_app_distr; cbn [rev app]; rewrite <- ?app_assoc; reflexivity.
+      + rewrite Hall, enc_sections_cons, <- !app_assoc. reflexivity.
+      + rewrite blen_app. lia.
+      + destruct Hend as [Hz|Hle2]; [left; exact Hz|right]. rewrite blen_app, blen_enc_section. lia.
+      + rewrite blen_app, blen_enc_section. lia.
   Qed.
+
+  (* how the loop ends *)
+  Lemma li_loop_end_eof o all e doff dsize acc f : blen all <= e ->
+    li_loop (S f) o all e doff dsize acc = Ok (rev acc).
+  Proof.
+    intros H. cbn [li_loop]. destruct (negb (dsize =? 0) && (dsize <=? e - doff)); [reflexivity|].
+    rewrite drop_ge by exact H. reflexivity.
+  Qed.
+  Lemma li_loop_end_payload o all e doff dsize acc f : dsize <> 0 -> dsize + doff <= e ->
+    li_loop (S f) o all e doff dsize acc = Ok (rev acc).
+  Proof.
+    intros Hnz Hle. cbn [li_loop]. replace (dsize =? 0) with false by lia.
+    replace (dsize <=? e - doff) with true by lia. reflexivity.
+  Qed.
+
+  Lemma length_enc_sections bs : (length bs <= length (enc_sections bs))%nat.
+  Proof. exact (enc_sections_length (fun _ _ => None) hdrdec bs). Qed.
 
   (* the archives WrapV1 is specified on *)
   Definition wrap_ok (o : xopts) (roots : list bytes) (bs : list block) : Prop :=
@@ -152,46 +205,92 @@ Section Wrap.
                     = blen (ld (enc_header (Some roots) 1))).
     { unfold consumed, enc_payload. rewrite blen_app. lia. }
     rewrite Hcons.
-    rewrite (li_loop_sections o (enc_payload roots bs) Hseek H63 bs (ld (enc_header (Some roots) 1)) []);
-      [reflexivity|reflexivity|exact Hok|].
-    pose proof (enc_sections_length (fun _ _ => None) hdrdec bs). unfold enc_payload. rewrite app_length. lia.
+    pose proof (length_enc_sections bs) as Hl.
+    assert (Hlen : (length bs <= length (enc_payload roots bs))%nat) by (unfold enc_payload; rewrite app_length; lia).
+    replace (S (length (enc_payload roots bs)))
+      with (length bs + S (length (enc_payload roots bs) - length bs))%nat by lia.
+    assert (Hall : enc_payload roots bs = ld (enc_header (Some roots) 1) ++ enc_sections bs ++ [])
+      by (rewrite app_nil_r; reflexivity).
+    assert (Hend : blen (ld (enc_header (Some roots) 1)) + blen (enc_sections bs) = blen (enc_payload roots bs))
+      by (unfold enc_payload; rewrite blen_app; reflexivity).
+    rewrite (li_loop_through o (enc_payload roots bs) H63 bs _ [] [] _ 0 0 Hall Hok); [|lia|left; reflexivity|lia].
+    rewrite Hend, li_loop_end_eof by lia.
+    rewrite app_nil_r, rev_involutive, N.sub_0_r. reflexivity.
   Qed.
 
-  (* C10 wrap layout, general half: whatever the source, a successful WrapV1 wrote pragma,
-     NewHeader(|x|), x verbatim, and the serialized index of the records LoadIndex produced *)
-  Theorem wrap_layout_any o x w : wrap_bytes hdrdec o x = Ok w ->
-    exists i0 recs, idx_new (x_codec o) = Some i0 /\ load_index hdrdec o x = Ok recs /\
-      w = pragma ++ enc_v2hdr (new_header (blen x)) ++ x ++ idx_write (idx_load recs i0).
+  (* a CARv2 as the SOURCE of WrapV1 (misuse the code does not refuse): LoadIndex walks the inner
+     payload; any characteristics, index offset, padding bytes and trailer *)
+  Definition pragma_good : Prop := exists rs, hdrdec pragma_body = Some (rs, 2).
+
+  Lemma read_header_pragma maxh rest : pragma_good -> 10 <= maxh ->
+    exists rs, read_header hdrdec maxh (pragma ++ rest) = Ok (rs, 2, rest, 11).
   Proof.
-    unfold wrap_bytes. destruct (idx_new (x_codec o)) as [i0|]; [|discriminate].
-    destruct (load_index hdrdec o x) as [recs|e]; [|discriminate].
-    intros H. inversion H. exists i0, recs. auto.
+    intros (rs & Hp) Hmax. exists rs. rewrite pragma_is_ld. unfold read_header.
+    rewrite ld_read_ld; [|cbn; unfold two63; lia|cbn; lia|discriminate].
+    rewrite Hp. reflexivity.
   Qed.
 
-  (* constructed half: on every valid CARv1 the options accept, WrapV1 succeeds and the index holds
-     exactly one record per indexed section at the offset of its length varint *)
-  Theorem wrap_layout_payload o roots bs i0 : wrap_ok o roots bs -> idx_new (x_codec o) = Some i0 ->
-    let x := enc_payload roots bs in
-    wrap_bytes hdrdec o x
-    = Ok (pragma ++ enc_v2hdr (new_header (blen x)) ++ x ++
-          idx_write (idx_load (spec_records (x_storeid o) (blen (ld (enc_header (Some roots) 1))) bs) i0)).
+  Definition container_of (hi lo ioff : N) (pad payload trailer : bytes) : bytes :=
+    v2_container (mkv2 hi lo (51 + blen pad) (blen payload) ioff) pad payload trailer.
+
+  Theorem load_index_container o hi lo ioff pad roots bs trailer :
+    pragma_good -> 10 <= x_maxh o -> hdr_good hdrdec roots ->
+    blen (enc_header (Some roots) 1) <= x_maxh o -> Forall (lblock_ok o) bs ->
+    hi < two64 -> lo < two64 -> ioff < two63 ->
+    blen (container_of hi lo ioff pad (enc_payload roots bs) trailer) <= x_maxseek o ->
+    blen (container_of hi lo ioff pad (enc_payload roots bs) trailer) < two63 ->
+    load_index hdrdec o (container_of hi lo ioff pad (enc_payload roots bs) trailer)
+    = Ok (spec_records (x_storeid o) (blen (ld (enc_header (Some roots) 1))) bs).
   Proof.
-    intros Hok Hi x. unfold wrap_bytes. rewrite Hi. unfold x. rewrite load_index_payload by exact Hok.
-    reflexivity.
+    intros Hpg Hmax10 Hg Hmax Hok Hhi Hlo Hio Hseek H63.
+    set (payload := enc_payload roots bs) in *.
+    set (h := mkv2 hi lo (51 + blen pad) (blen payload) ioff).
+    set (all := container_of hi lo ioff pad payload trailer) in *.
+    assert (Eall : all = pragma ++ enc_v2hdr h ++ pad ++ payload ++ trailer) by reflexivity.
+    assert (Hlen : blen all = 51 + blen pad + blen payload + blen trailer).
+    { rewrite Eall, !blen_app, blen_enc_v2hdr. change (blen pragma) with 11. lia. }
+    assert (Hpl : blen payload = blen (ld (enc_header (Some roots) 1)) + blen (enc_sections bs))
+      by (unfold payload, enc_payload; rewrite blen_app; reflexivity).
+    assert (Hhpos : 1 <= blen (ld (enc_header (Some roots) 1))).
+    { rewrite blen_ld. unfold ld_size. pose proof (uv_size_pos (blen (enc_header (Some roots) 1))). lia. }
+    assert (Hh63 : blen (enc_header (Some roots) 1) < two63).
+    { rewrite blen_ld in Hpl. unfold ld_size in Hpl. lia. }
+    assert (Hhok : v2hdr_ok h).
+    { unfold v2hdr_ok, h. cbn [h_hi h_lo h_doff h_dsize h_ioff]. unfold two63, two64 in *. lia. }
+    unfold load_index.
+    destruct (read_header_pragma (x_maxh o) (enc_v2hdr h ++ pad ++ payload ++ trailer) Hpg Hmax10) as (rs & Hrh).
+    rewrite Eall at 1. rewrite Hrh. cbn [N.eqb Pos.eqb].
+    rewrite read_v2hdr_enc by exact Hhok.
+    assert (Hso : seek_ok o (h_doff h) = true).
+    { unfold seek_ok, h. cbn [h_doff]. apply andb_true_iff. split; lia. }
+    rewrite Hso. cbn [negb].
+    set (A := pragma ++ enc_v2hdr h ++ pad).
+    assert (HA : blen A = h_doff h).
+    { unfold A, h. cbn [h_doff]. rewrite !blen_app, blen_enc_v2hdr. change (blen pragma) with 11. lia. }
+    assert (Eall2 : all = A ++ payload ++ trailer) by (rewrite Eall; unfold A; rewrite <- !app_assoc; reflexivity).
+    rewrite <- HA.
+    assert (Hdrop : drop (blen A) all = ld (enc_header (Some roots) 1) ++ enc_sections bs ++ trailer).
+    { rewrite Eall2, drop_app. unfold payload, enc_payload. rewrite <- app_assoc. reflexivity. }
+    rewrite !Hdrop.
+    rewrite read_header_payload by assumption. cbn [N.eqb Pos.eqb negb].
+    assert (Hcons : consumed (ld (enc_header (Some roots) 1) ++ enc_sections bs ++ trailer) (enc_sections bs ++ trailer)
+                    = blen (ld (enc_header (Some roots) 1))) by (unfold consumed; rewrite blen_app; lia).
+    rewrite Hcons.
+    set (pre := A ++ ld (enc_header (Some roots) 1)).
+    assert (Hpre : blen A + blen (ld (enc_header (Some roots) 1)) = blen pre) by (unfold pre; rewrite blen_app; reflexivity).
+    rewrite Hpre.
+    assert (Eall3 : all = pre ++ enc_sections bs ++ trailer).
+    { rewrite Eall2. unfold pre, payload, enc_payload. rewrite <- !app_assoc. reflexivity. }
+    pose proof (length_enc_sections bs) as Hl.
+    assert (Hlb : (length bs <= length all)%nat).
+    { rewrite Eall3, !app_length. lia. }
+    replace (S (length all)) with (length bs + S (length all - length bs))%nat by lia.
+    assert (HA' : blen A = 51 + blen pad) by (rewrite HA; reflexivity).
+    cbn [h_dsize h].
+    rewrite (li_loop_through o all H63 bs pre trailer [] _ (blen A) (blen payload) Eall3 Hok); [|lia|right; lia|lia].
+    rewrite li_loop_end_payload by lia.
+    rewrite app_nil_r, rev_involutive. f_equal. f_equal. lia.
   Qed.
-
-  Theorem wrap_unknown_codec o x : idx_new (x_codec o) = None -> wrap_bytes hdrdec o x = Err EOther.
-  Proof. intros H. unfold wrap_bytes. rewrite H. reflexivity. Qed.
-
-  (* WrapV1File: the source is never modified (when it is not the destination) and on failure
-     the destination exists and is empty *)
-  Theorem wrap_file_other o x d :
-    wrap_file hdrdec o (mkfs (Some x) (DOther d))
-    = match wrap_bytes hdrdec o x with
-      | Ok w => (Ok tt, mkfs (Some x) (DOther (Some w)))
-      | Err e => (Err e, mkfs (Some x) (DOther (Some [])))
-      end.
-  Proof. unfold wrap_file. cbn. destruct (wrap_bytes hdrdec o x); reflexivity. Qed.
 
   (* ---- termination of the section loop ----------------------------------------------------- *)
   Lemma read_uv_f_ok_used : forall fuel i x bs v r n,
@@ -241,24 +340,70 @@ Section Wrap.
     - destruct e; discriminate.
   Qed.
 
-  Corollary wrap_bytes_fuel_enough o x : wrap_bytes hdrdec o x <> Err EFuel.
+  (* ---- WrapV1's layout ---------------------------------------------------------------------- *)
+  Variable srt : list irec -> list irec.   (* what sort.Sort does; no property of it is needed here *)
+
+  (* general half: whatever the source, a successful WrapV1 wrote pragma, NewHeader(|x|), x verbatim,
+     and the serialized index of the records LoadIndex produced *)
+  Theorem wrap_layout_any o x w : wrap_bytes_with hdrdec srt o x = Ok w ->
+    exists i0 recs, idx_new (x_codec o) = Some i0 /\ load_index hdrdec o x = Ok recs /\
+      w = pragma ++ enc_v2hdr (new_header (blen x)) ++ x ++ idx_write (idx_load_with srt recs i0).
   Proof.
-    unfold wrap_bytes. destruct (idx_new (x_codec o)); [|discriminate].
+    unfold wrap_bytes_with. destruct (idx_new (x_codec o)) as [i0|]; [|discriminate].
+    destruct (load_index hdrdec o x) as [recs|e]; [|discriminate].
+    intros H. inversion H. exists i0, recs. auto.
+  Qed.
+
+  (* constructed half: on every valid CARv1 the options accept, WrapV1 succeeds and the index holds
+     exactly one record per indexed section at the offset of its length varint *)
+  Theorem wrap_layout_payload o roots bs i0 : wrap_ok o roots bs -> idx_new (x_codec o) = Some i0 ->
+    let x := enc_payload roots bs in
+    wrap_bytes_with hdrdec srt o x
+    = Ok (pragma ++ enc_v2hdr (new_header (blen x)) ++ x ++
+          idx_write (idx_load_with srt (spec_records (x_storeid o) (blen (ld (enc_header (Some roots) 1))) bs) i0)).
+  Proof.
+    intros Hok Hi x. unfold wrap_bytes_with. rewrite Hi. unfold x. rewrite load_index_payload by exact Hok.
+    reflexivity.
+  Qed.
+
+  (* a CARv2 source: the WHOLE file is wrapped as the new payload, and the appended index is that
+     of the inner CARv1, with offsets relative to the inner payload *)
+  Theorem wrap_layout_container o hi lo ioff pad roots bs trailer i0 :
+    pragma_good -> 10 <= x_maxh o -> hdr_good hdrdec roots ->
+    blen (enc_header (Some roots) 1) <= x_maxh o -> Forall (lblock_ok o) bs ->
+    hi < two64 -> lo < two64 -> ioff < two63 ->
+    blen (container_of hi lo ioff pad (enc_payload roots bs) trailer) <= x_maxseek o ->
+    blen (container_of hi lo ioff pad (enc_payload roots bs) trailer) < two63 ->
+    idx_new (x_codec o) = Some i0 ->
+    let x := container_of hi lo ioff pad (enc_payload roots bs) trailer in
+    wrap_bytes_with hdrdec srt o x
+    = Ok (pragma ++ enc_v2hdr (new_header (blen x)) ++ x ++
+          idx_write (idx_load_with srt (spec_records (x_storeid o) (blen (ld (enc_header (Some roots) 1))) bs) i0)).
+  Proof.
+    intros Hpg H10 Hg Hmax Hok Hhi Hlo Hio Hseek H63 Hi x. unfold wrap_bytes_with. rewrite Hi. unfold x.
+    rewrite load_index_container by assumption. reflexivity.
+  Qed.
+
+  Theorem wrap_unknown_codec o x : idx_new (x_codec o) = None -> wrap_bytes_with hdrdec srt o x = Err EOther.
+  Proof. intros H. unfold wrap_bytes_with. rewrite H. reflexivity. Qed.
+
+  (* WrapV1File: the source is never modified (when it is not the destination) and on failure
+     the destination exists and is empty *)
+  Theorem wrap_file_other o x d :
+    wrap_file_with hdrdec srt o (mkfs (Some x) (DOther d))
+    = match wrap_bytes_with hdrdec srt o x with
+      | Ok w => (Ok tt, mkfs (Some x) (DOther (Some w)))
+      | Err e => (Err e, mkfs (Some x) (DOther (Some [])))
+      end.
+  Proof. unfold wrap_file_with. cbn. destruct (wrap_bytes_with hdrdec srt o x); reflexivity. Qed.
+
+  Corollary wrap_bytes_fuel_enough o x : wrap_bytes_with hdrdec srt o x <> Err EFuel.
+  Proof.
+    unfold wrap_bytes_with. destruct (idx_new (x_codec o)); [|discriminate].
     pose proof (load_index_fuel_enough o x). destruct (load_index hdrdec o x); [discriminate|congruence].
   Qed.
 
   (* ---- extract (wrap x) = x ------------------------------------------------------------------ *)
-  (* the pragma WrapV1 writes is read back as version 2 by the header decoder *)
-  Definition pragma_good : Prop := exists rs, hdrdec pragma_body = Some (rs, 2).
-
-  Lemma read_header_pragma maxh rest : pragma_good -> 10 <= maxh ->
-    exists rs, read_header hdrdec maxh (pragma ++ rest) = Ok (rs, 2, rest, 11).
-  Proof.
-    intros (rs & Hp) Hmax. exists rs. rewrite pragma_is_ld. unfold read_header.
-    rewrite ld_read_ld; [|cbn; unfold two63; lia|cbn; lia|discriminate].
-    rewrite Hp. reflexivity.
-  Qed.
-
   Lemma load_index_nonempty o x recs : load_index hdrdec o x = Ok recs -> 0 < blen x.
   Proof.
     unfold load_index, read_header, ld_read, ld_read_size. destruct x as [|b t]; [discriminate|].
@@ -266,7 +411,7 @@ Section Wrap.
   Qed.
 
   Theorem extract_wrap csz ow oe x w dst : csz_pos csz ->
-    wrap_bytes hdrdec ow x = Ok w ->
+    wrap_bytes_with hdrdec srt ow x = Ok w ->
     blen x + 51 < two63 ->           (* int64 file offsets: NewHeader's IndexOffset must not wrap *)
     pragma_good -> 10 <= x_maxh oe -> seek_ok oe 51 = true ->
     let '(r, s') := extract_file hdrdec csz oe (mkfs (Some w) dst) in
@@ -276,7 +421,7 @@ Section Wrap.
     destruct (wrap_layout_any ow x w Hw) as (i0 & recs & Hi & Hli & ->).
     pose proof (load_index_nonempty ow x recs Hli) as Hpos.
     set (h := new_header (blen x)).
-    set (tail := idx_write (idx_load recs i0)).
+    set (tail := idx_write (idx_load_with srt recs i0)).
     destruct (read_header_pragma (x_maxh oe) (enc_v2hdr h ++ x ++ tail) Hpg Hmax) as (rs & Hrh).
     assert (Hhok : v2hdr_ok h).
     { unfold v2hdr_ok, h, new_header, wrap64. cbn [h_hi h_lo h_doff h_dsize h_ioff].
@@ -301,6 +446,45 @@ Section Wrap.
     intros Hex.
     destruct Hex as (Hr & Hd & Hs). split; [exact Hr|]. split; [|exact Hs].
     rewrite Hd. f_equal. exact Hwin.
+  Qed.
+
+  (* ---- extraction from a constructed CARv2, every header ---------------------------------------- *)
+  (* a = pragma ++ header h ++ body, ANY header fields (uint64): if Header.ReadFrom accepts h (exactly
+     [v2hdr_accepted h]; the index offset and the characteristics play no role -- the offset may point
+     into the payload, before it, or past the end of the file) and the body holds the declared
+     window, the destination becomes exactly that window; if the window runs past the end of the file,
+     io.EOF after a partial copy; if h is not accepted, an error and nothing is created or modified *)
+  Theorem extract_container csz o h body dst : csz_pos csz ->
+    pragma_good -> 10 <= x_maxh o ->
+    h_hi h < two64 -> h_lo h < two64 -> h_doff h < two64 -> h_dsize h < two64 -> h_ioff h < two64 ->
+    let a := pragma ++ enc_v2hdr h ++ body in
+    let s := mkfs (Some a) dst in
+    if v2hdr_accepted h && seek_ok o (h_doff h) then
+      if h_doff h + h_dsize h <=? blen a then
+        fst (extract_file hdrdec csz o s) = XOk /\
+        dst_content (snd (extract_file hdrdec csz o s)) = Some (take (h_dsize h) (drop (h_doff h) a)) /\
+        (dst <> DSame -> f_src (snd (extract_file hdrdec csz o s)) = Some a)
+      else
+        extract_file hdrdec csz o s
+        = (XErr EEof, set_dst s (drop (h_doff h) a ++
+                                 drop (blen a - h_doff h) (match dst_content s with Some d => d | None => [] end)))
+    else extract_file hdrdec csz o s = (XErr EOther, s).
+  Proof.
+    intros Hcsz Hpg Hmax Hhi Hlo Hdo Hds Hio a s.
+    destruct (read_header_pragma (x_maxh o) (enc_v2hdr h ++ body) Hpg Hmax) as (rs & Hrh).
+    pose proof (read_v2hdr_enc_exact h body Hhi Hlo Hdo Hds Hio) as Hv2.
+    destruct (v2hdr_accepted h) eqn:Eacc; cbn [andb].
+    - destruct (seek_ok o (h_doff h)) eqn:Eseek.
+      + destruct (h_doff h + h_dsize h <=? blen a) eqn:Elen.
+        * pose proof (extract_exact hdrdec csz o a dst rs _ 11 h body Hcsz Hrh Hv2 Eseek ltac:(lia)) as Hex.
+          exact (let_pair_fst_snd (extract_file hdrdec csz o s)
+                   (fun r s' => r = XOk /\ dst_content s' = Some (take (h_dsize h) (drop (h_doff h) a)) /\
+                                (dst <> DSame -> f_src s' = Some a)) Hex).
+        * apply (extract_short hdrdec csz o a dst rs _ 11 h body Hcsz Hrh Hv2 Eseek). lia.
+      + rewrite extract_file_closed by exact Hcsz. unfold extract_spec, s. cbn [f_src].
+        fold a. unfold a at 1. rewrite Hrh. cbn [N.eqb Pos.eqb negb]. rewrite Hv2, Eseek. reflexivity.
+    - rewrite extract_file_closed by exact Hcsz. unfold extract_spec, s. cbn [f_src].
+      fold a. unfold a at 1. rewrite Hrh. cbn [N.eqb Pos.eqb negb]. rewrite Hv2. reflexivity.
   Qed.
 End Wrap.
 
